@@ -23,7 +23,10 @@ class CoreScenario(Scenario):
         self.prog = cfg["prog"]
         self.a = Analysis(self.prog)
         self.checks = set(cfg.get("checks", []))
-        self.check_netlist = "C10" in self.checks
+        # every generated design passes the structural check before it is simulated (an oscillating
+        # loop would spin pysim inside one delta cycle); only C10 reports a cycle as a violation
+        self.check_netlist = True
+        self.comb_cycle_is_violation = "C10" in self.checks
         # acceptance of well-formed designs is C11's claim (and C10's, whose statement says "elaborates")
         self.elab_failure_is_violation = bool(self.checks & {"C10", "C11"})
         self.fsm_state = {fid: 0 for fid in self.a.fsms}
@@ -256,6 +259,8 @@ class CoreScenario(Scenario):
             self.inv_c08(stim, obs)
         if "C09" in ch:
             self.inv_c09(stim, obs)
+        if "C12" in ch:
+            self.inv_c12(stim, obs)
         self.track_fsm(stim, obs)
         running = tuple(t for t in self.a.transactions if self.run(t, obs))
         self.visit(running, nontrivial=len(running) > 0)
@@ -588,3 +593,109 @@ class CoreScenario(Scenario):
                 self.hit("rr_grant_in_multi_member_component")
             if len(en) > 1:
                 self.hit("rr_contention")
+
+    # C12 ----------------------------------------------------------------------------------------
+    def branch_cond(self, bid, stim):
+        cid, k, encl, mod, pos = self.a.branches[bid]
+        n, _ = self.a.conds[cid]
+        br = n["branches"][k]
+        if br.get("cond"):
+            return bool(stim.get(br["cond"], 0))
+        return not any(stim.get(b["cond"], 0) for b in n["branches"] if b.get("cond"))
+
+    def admissible(self, bid, stim, obs):
+        """condition holds and all methods the branch calls are ready (and accept the arguments)."""
+        a = self.a
+        if not self.branch_cond(bid, stim):
+            return False
+        for m in a.tree_methods[bid]:
+            if not self.body_ready(m, stim, obs):
+                return False
+            for d in a.ready_deps(m):
+                if not self.run(d, obs):
+                    return False
+        for ch in a.chains[bid]:
+            md = a.mdefs[ch[-1].target]
+            if md.get("val") and all(obs[f"{s.id}.wa"] and self.en(s, stim) for s in ch):
+                if not eval_validator(md["val"], self.arg(ch[-1], stim, obs)):
+                    return False
+        # a nested condition() inside the branch must itself be able to pick a branch
+        for cid, (n, encl) in a.conds.items():
+            if encl != bid:
+                continue
+            inner = [b["bid"] for b in n["branches"]]
+            if any(self.admissible(b, stim, obs) for b in inner):
+                continue
+            if n.get("nonblocking") and not any(stim.get(b["cond"], 0) for b in n["branches"] if b.get("cond")):
+                continue
+            return False
+        return True
+
+    def inside(self, bid, root):
+        while bid is not None:
+            if bid == root:
+                return True
+            bid = self.a.bodies[bid].parent
+        return False
+
+    def taken_from_outside(self, bid, encl, stim, obs):
+        """A method the branch would call is executed in this cycle for a caller outside the enclosing
+        body: the branch "could not be executed" in the words of condition()'s documentation, so a later
+        branch may be selected (reading of "admissible" recorded in DESIGN.md, C12)."""
+        a = self.a
+        group = [bid]
+        for cid, (n, e) in a.conds.items():
+            if e == bid:
+                group += [b["bid"] for b in n["branches"]]
+        for t in a.transactions:
+            if t in a.branches or self.inside(t, encl) or not self.run(t, obs):
+                continue
+            if encl in a.tree_methods.get(t, []) or t == encl:
+                continue  # a caller of the enclosing body is part of the same merged transaction
+            if any(a.method_relation(b, t)[0] != "NOT" for b in group):
+                self.hit("cond_earlier_branch_lost_callee_to_outside_transaction")
+                return True
+        return False
+
+    def inv_c12(self, stim, obs):
+        a = self.a
+        for cid, (n, encl) in a.conds.items():
+            brs = [b["bid"] for b in n["branches"]]
+            ran = [b for b in brs if obs[f"{b}.bw"]]
+            erun = bool(self.run(encl, obs))
+            conds = [bool(stim.get(b["cond"], 0)) for b in n["branches"] if b.get("cond")]
+            if len(ran) > 1:
+                raise Violation("condition-several-branches", f"{cid}: branches {ran} run in one cycle", cond=cid)
+            for b in ran:
+                if not erun:
+                    raise Violation("condition-branch-without-enclosing-body", f"{b} runs but {encl} does not", cond=cid)
+                if not self.admissible(b, stim, obs):
+                    what = "its condition is false" if not self.branch_cond(b, stim) else "a method it calls is not ready / rejects the argument"
+                    raise Violation("condition-inadmissible-branch-ran", f"{b} runs but {what}", cond=cid,
+                                    default=n["branches"][brs.index(b)].get("cond") is None)
+                if n.get("priority"):
+                    k = brs.index(b)
+                    for e in brs[:k]:
+                        if self.admissible(e, stim, obs) and not self.taken_from_outside(e, encl, stim, obs):
+                            raise Violation("condition-priority-violated", f"{b} runs although earlier branch {e} is admissible", cond=cid)
+                    if k > 0:
+                        self.hit("cond_later_branch_ran_with_priority")
+                self.hit("cond_branch_ran")
+                if sum(conds) > 1:
+                    self.hit("cond_overlapping_conditions_one_chosen")
+                if n["branches"][brs.index(b)].get("cond") is None:
+                    self.hit("cond_default_ran")
+            if erun and not ran:
+                if not (n.get("nonblocking") and not any(conds)):
+                    raise Violation("condition-body-ran-without-branch",
+                                    f"{encl} runs, no branch of {cid} runs (nonblocking={bool(n.get('nonblocking'))}, conditions={conds})", cond=cid)
+                self.hit("cond_nonblocking_fallthrough")
+            first_true = next((b for b in brs if self.branch_cond(b, stim)), None)
+            if first_true is not None and not self.admissible(first_true, stim, obs):
+                self.hit("cond_first_true_branch_inadmissible")
+            if not any(conds):
+                self.hit("cond_no_condition_true")
+            if len(conds) > 1 and all(conds):
+                self.hit("cond_all_conditions_true")
+            if a.branches[brs[0]][2] in a.branches:
+                self.hit("cond_nested_block_evaluated")
